@@ -52,6 +52,22 @@ CFLAGS=(-O1 -g -fno-omit-frame-pointer -Wno-everything
 # smoke test: INFO request must be answered
 printf '\x01\x00\x00\x00\x0f' | "$W/kernsim.new" | head -c 5 | od -An -tx1 | grep -q '00$' \
 	|| { echo "kernsim: smoke test failed" >&2; exit 4; }
+# PARAM self-test: SET_PARAM (op 2) with 0x01..0x20 must read back through volatile loads (op 16)
+PLEN=$(printf '\x01\x00\x00\x00\x0f' | "$W/kernsim.new" | od -An -tu4 -j5 -N4 | tr -d ' ')
+python3 - "$W/kernsim.new" "$PLEN" <<'PY' >&2 || { echo "kernsim: PARAM self-test failed" >&2; exit 4; }
+import struct, subprocess, sys
+p = subprocess.Popen([sys.argv[1]], stdin=subprocess.PIPE, stdout=subprocess.PIPE)
+n = int(sys.argv[2])
+def call(op, payload=b""):
+    body = bytes([op]) + payload
+    p.stdin.write(struct.pack("<I", len(body)) + body); p.stdin.flush()
+    ln = struct.unpack("<I", p.stdout.read(4))[0]
+    return p.stdout.read(ln)
+want = bytes((i % 255) + 1 for i in range(n))
+assert call(2, struct.pack("<I", n) + want)[0] == 0
+got = call(16)
+assert got[0] == 0 and got[5:] == want, (got.hex(), want.hex())
+PY
 mv -f "$W/kernsim.new" "$OUT/kernsim"
 echo "$STAMP" >"$OUT/stamp"
 echo "kernsim: built $OUT/kernsim" >&2
